@@ -155,8 +155,8 @@ func (s *state) poolIDs() []uint32 {
 // fail), mustFail / mayFail, and the (id,addr) pairs the op may add to the pool.
 type expect struct {
 	want     []uint32
-	mustFail string            // non-empty: the operation must fail, with this reason
-	mayFail  bool              // rejecting is allowed (duplicates)
+	mustFail string              // non-empty: the operation must fail, with this reason
+	mayFail  bool                // rejecting is allowed (duplicates)
 	adds     map[uint32][]string // pool additions (per id the addresses this operation may register)
 }
 
